@@ -28,8 +28,12 @@ func (t *StatusCommandType) InitFromJSON(config map[string]interface{}) (Control
 	requestedFields, ok := config["requested_fields"]
 	var requestedFieldsStr []string
 	if ok {
+		requestedFieldsList, ok := requestedFields.([]interface{})
+		if !ok {
+			return nil, fmt.Errorf("requested_fields must be a list of strings")
+		}
 		requestedFieldsStr = make([]string, 0)
-		for _, v := range requestedFields.([]interface{}) {
+		for _, v := range requestedFieldsList {
 			vStr, ok := v.(string)
 			if !ok {
 				return nil, fmt.Errorf("each element of requested_fields must be a string")
